@@ -1,5 +1,6 @@
 import Ecal.Lemmas.ExprFuel
 import Ecal.Lemmas.ExprTotal
+import Ecal.Lemmas.ExprSound
 import Ecal.Gen.C03
 /-!
 # C03 — expressions evaluate per the documented operator semantics and precedence
@@ -8,9 +9,9 @@ Model: `Ecal/Model/Expr.lean`. `T` below is the table regenerated from
 `/repo/parser/parser.go` (`Ecal/Gen/C03.lean`) on every run; every fact about it is
 re-checked by `decide`.
 
-Precedence: `pratt_print`, `pratt_print_redundant`, `layout_irrelevant_partial` and the
+Precedence: `pratt_print`, `pratt_print_redundant`, the converse `parse_sound`, `layout_irrelevant_partial` and the
 corollaries `left_assoc`, `tighter_first`, `prefix_sign_tightest`,
-`not_takes_comparison`. Semantics: `eval_refines_spec`, `wrong_kind_*`.
+`not_takes_comparison`. Semantics: `eval_eq_quirk_spec`, `eval_refines_spec_partial`, `wrong_kind_*`.
 -/
 namespace Ecal.Props.C03
 open Ecal.Expr Ecal.Expr.Spec
@@ -49,7 +50,8 @@ theorem table_denotations :
     T.led .lp = .none ∧ T.led .lb = .none ∧
     T.infixExtra = 0 ∧ T.infixSub = 0 ∧ T.innerBinding = 0 ∧ T.listBinding = 0 := by decide
 
-/-- every operator token is tied to its own node kind (and through it to its runtime) -/
+/-- every operator token is tied to its own node kind (the map node kind → runtime constructor,
+    `providerMap`, is not extracted: that step is covered by the value comparison only) -/
 theorem table_nodes :
     BinOp.all.map (fun o => T.node (.op o)) =
       ["NodeGEQ", "NodeLEQ", "NodeNEQ", "NodeEQ", "NodeGT", "NodeLT", "NodePLUS", "NodeMINUS", "NodeTIMES",
@@ -132,6 +134,16 @@ theorem layout_irrelevant_partial (e : Expr) (ks : List TK) (hp : Prints e .top 
 theorem parse_fuel_suffices (ts : List LTok) : Impl.parse T ts ≠ .error .fuel :=
   parse_never_out_of_fuel T ts
 
+/-- C03 (converse — the parser accepts nothing but the documented grammar): whenever the parser
+    with the real table returns a tree for a token list (on whatever lines), the tokens before
+    the EOF token are a writing of THAT tree per the documented precedence grammar — needed
+    parentheses present, any further ones allowed; the only liberty beyond `Prints` is that the
+    elements of a list literal need no commas (`PrintsW`). With `pratt_print_redundant` and
+    `prints_unambiguous`: the parser IS the grammar. -/
+theorem parse_sound (ts : List LTok) (e : Expr) (h : Impl.parse T ts = .ok e) :
+    ∃ ks rest, ts.map (·.tk) = ks ++ (.eof :: rest) ∧ PrintsW e .top .none ks :=
+  parse_sound_gen table_compat ts e h
+
 /-- C03 (the documented grammar is unambiguous): a token sequence is an admissible writing
     of at most one tree — a consequence of the parser reading every writing back. -/
 theorem prints_unambiguous (e1 e2 : Expr) (ks : List TK) (h1 : Prints e1 .top .none ks)
@@ -168,23 +180,32 @@ theorem tighter_first (o1 o2 : BinOp) (t1 t2 : Str) (a b c : Expr) (h : lvl o1 <
   rw [line1_map]
   simp [pr, fitsBin, h]
 
-/-- C03 (prefix sign): `- a o b` is `(-a) o b` for every binary operator `o`. -/
-theorem prefix_sign_tightest (o : BinOp) (t1 t2 : Str) (a : Atom) (b : Expr) :
-    Impl.parse T (program (line1 (.op .minus t1 :: .atom a :: .op o t2 :: pr b (.rightOf o) .none)) 1)
-      = .ok (.bin o t2 (.pre .neg t1 (.atom a)) b) := by
+/-- C03 (prefix sign): `- a o b` is `(-a) o b` for every binary operator `o` and arbitrary
+    operand trees (`a` written as an operand of the sign, `b` as a right operand of `o`). -/
+theorem prefix_sign_tightest (o : BinOp) (t1 t2 : Str) (a b : Expr) :
+    Impl.parse T (program (line1 (.op .minus t1 :: (pr a (.operandOf .neg) (.before o) ++
+        (.op o t2 :: pr b (.rightOf o) .none)))) 1)
+      = .ok (.bin o t2 (.pre .neg t1 a) b) := by
   apply pratt_print
   rw [line1_map]
   cases o <;> simp [pr, fitsBin, fitsPre, lvl, plvl, preTok]
 
-/-- C03 (`not`): `not a o b` is `not (a o b)` for a comparison, membership or arithmetic
-    operator `o`, and `(not a) o b` for `and`, `or`. -/
-theorem not_takes_comparison (o : BinOp) (t1 t2 : Str) (a b : Atom) :
-    Impl.parse T (program (line1 [.not t1, .atom a, .op o t2, .atom b]) 1)
-      = .ok (if lvl .and < lvl o then .pre .not t1 (.bin o t2 (.atom a) (.atom b))
-             else .bin o t2 (.pre .not t1 (.atom a)) (.atom b)) := by
+/-- C03 (`not` takes the comparison): `not a o b` is `not (a o b)` for a comparison,
+    membership or arithmetic operator `o`, for arbitrary operand trees. -/
+theorem not_takes_comparison (o : BinOp) (t1 t2 : Str) (a b : Expr) (h : lvl .and < lvl o) :
+    Impl.parse T (program (line1 (.not t1 :: (pr a (.leftOf o) (.before o) ++ (.op o t2 :: pr b (.rightOf o) .none)))) 1)
+      = .ok (.pre .not t1 (.bin o t2 a b)) := by
   apply pratt_print
   rw [line1_map]
-  cases o <;> simp [pr, fitsBin, fitsPre, lvl, plvl, preTok]
+  cases o <;> simp [lvl] at h <;> simp [pr, fitsBin, fitsPre, lvl, plvl, preTok]
+
+/-- C03 (`not` leaves and/or): `not a o b` is `(not a) o b` for `and`, `or` (and `:=`). -/
+theorem not_leaves_logic (o : BinOp) (t1 t2 : Str) (a b : Expr) (h : lvl o ≤ lvl .and) :
+    Impl.parse T (program (line1 (.not t1 :: (pr a (.operandOf .not) (.before o) ++ (.op o t2 :: pr b (.rightOf o) .none)))) 1)
+      = .ok (.bin o t2 (.pre .not t1 a) b) := by
+  apply pratt_print
+  rw [line1_map]
+  cases o <;> simp [lvl] at h <;> simp [pr, fitsBin, fitsPre, lvl, plvl, preTok]
 
 /-! ### non-vacuity and negative witnesses (tests, not proofs of the property) -/
 
@@ -218,6 +239,10 @@ example : Impl.parse T [⟨.atom n1, 1⟩, ⟨.op .plus tPlus, 2⟩, ⟨.atom n2
 example : Impl.parse T [⟨.atom n1, 1⟩, ⟨.lp, 1⟩, ⟨.atom n2, 1⟩, ⟨.rp, 1⟩, ⟨.eof, 1⟩] = .error .noLed := by rfl
 example : Impl.parse T [⟨.atom n1, 1⟩, ⟨.lp, 2⟩, ⟨.atom n2, 2⟩, ⟨.rp, 2⟩, ⟨.eof, 2⟩] = .error .unsupported := by rfl
 
+/-- `[1 2]` (no comma) is accepted: the hypothesis of `parse_sound` is satisfiable outside `Prints` -/
+example : Impl.parse T [⟨.lb, 1⟩, ⟨.atom n1, 1⟩, ⟨.atom n2, 1⟩, ⟨.rb, 1⟩, ⟨.eof, 1⟩]
+    = .ok (.list (.cons (.atom n1) (.cons (.atom n2) .nil))) := by rfl
+
 /-- redundant brackets: `((1)) + (2 * 3)` is an admissible writing of `1 + 2 * 3` -/
 example : Prints (.bin .plus tPlus (.atom n1) (.bin .times tTimes (.atom n2) (.atom n3))) .top .none
     ([.lp, .lp, .atom n1, .rp, .rp] ++ (.op .plus tPlus :: [.lp, .atom n2, .op .times tTimes, .atom n3, .rp])) :=
@@ -229,55 +254,113 @@ example : Prints (.bin .plus tPlus (.atom n1) (.bin .times tTimes (.atom n2) (.a
 section Sem
 variable {N : Type} (G : Cfg N)
 
-theorem binOp_errL (o : BinOp) (n1 n2 : Str) (k : ErrKind) (s : Str) (o2 : Out N) :
-    Impl.binOp G o n1 n2 (.err k s) o2 = .err k s := by
+theorem binOp_errL (o : BinOp) (n1 n2 : Str) (k : ErrKind) (s : Str) (p : Option Nat) (o2 : Out N) :
+    Impl.binOp G o n1 n2 (.err k s p) o2 = .err k s p := by
   cases o <;> simp [Impl.binOp, Impl.numOp, Impl.cmpOp, Impl.strOp, Impl.genOp, Impl.boolOp, Impl.listOp, Impl.likeOp]
 
-theorem binOp_errR (o : BinOp) (n1 n2 : Str) (v : Val N) (k : ErrKind) (s : Str) :
-    Impl.binOp G o n1 n2 (.val v) (.err k s) = .err k s := by
+theorem binOp_errR (o : BinOp) (n1 n2 : Str) (v : Val N) (k : ErrKind) (s : Str) (p : Option Nat) :
+    Impl.binOp G o n1 n2 (.val v) (.err k s p) = .err k s p := by
   cases o <;> simp [Impl.binOp, Impl.numOp, Impl.cmpOp, Impl.strOp, Impl.genOp, Impl.boolOp, Impl.listOp, Impl.likeOp]
 
-theorem binOp_val (o : BinOp) (n1 n2 : Str) (v1 v2 : Val N) :
-    Impl.binOp G o n1 n2 (.val v1) (.val v2) = Spec.binSem G o n1 n2 v1 v2 := by
+theorem binOp_val (o : BinOp) (n1 n2 : Str) (v1 v2 : Val N)
+    (hr : ∀ a b, o = .modint → v1 = .num a → v2 = .num b → (G.C.inInt64 a && G.C.inInt64 b) = true) :
+    Impl.binOp G o n1 n2 (.val v1) (.val v2) = (Spec.binSem G o n1 n2 v1 v2).quirk := by
   cases o <;> cases v1 <;> cases v2 <;>
     simp [Impl.binOp, Impl.numOp, Impl.cmpOp, Impl.strOp, Impl.genOp, Impl.boolOp, Impl.listOp, Impl.likeOp,
-      Impl.modOp, Spec.binSem, Spec.arith, Spec.compare, Spec.logic, Spec.member]
+      Impl.modOp, Spec.binSem, Spec.arith, Spec.compare, Spec.logic, Spec.member, Out.quirk, quirkNode] <;>
+    (try split) <;> simp_all [Out.quirk, quirkNode]
 
 theorem preOp_val (p : PreOp) (n : Str) (v : Val N) :
-    Impl.preOp G.C p n (.val v) = Spec.preSem G.C p n v := by
-  cases p <;> cases v <;> simp [Impl.preOp, Impl.numVal, Impl.boolVal, Spec.preSem]
+    Impl.preOp G.C p n (.val v) = (Spec.preSem G.C p n v).quirk := by
+  cases p <;> cases v <;> simp [Impl.preOp, Impl.numVal, Impl.boolVal, Spec.preSem, Out.quirk, quirkNode]
 
-theorem preOp_err (p : PreOp) (n : Str) (k : ErrKind) (s : Str) :
-    Impl.preOp G.C p n (.err k s) = (.err k s : Out N) := by
+theorem preOp_err (p : PreOp) (n : Str) (k : ErrKind) (s : Str) (q : Option Nat) :
+    Impl.preOp G.C p n (.err k s q) = (.err k s q : Out N) := by
   cases p <;> simp [Impl.preOp, Impl.numVal, Impl.boolVal]
 
+theorem quirk_val (o : Out N) (v : Val N) (h : o.quirk = .val v) : o = .val v := by
+  cases o <;> simp_all [Out.quirk]
+
+def quirkE : ErrKind × Str × Option Nat → ErrKind × Str × Option Nat
+  | (k, s, p) => (k, s, quirkNode k p)
+
 mutual
-/-- C03 (semantics): evaluation as the interpreter does it (helper functions, evaluation
-    order, comparison falling back to text comparison on any error of the numeric
-    attempt, both operands of and/or evaluated) computes, for EVERY tree, variable
-    environment, numeric carrier and regular-expression oracle, what the per-operator
-    definition `Spec.eval` says. -/
-theorem eval_refines_spec : ∀ (e : Expr), Impl.eval G e = Spec.eval G e
-  | .atom a => by simp [Impl.eval, Spec.eval]
-  | .list its => by simp only [Impl.eval, Spec.eval, evalItems_refines_spec its]
-  | .bin o t l r => by
-    simp only [Impl.eval, Spec.eval, eval_refines_spec l, eval_refines_spec r]
-    cases Spec.eval G l with
-    | err k s => simp [binOp_errL]
+/-- evaluation as the interpreter does it = the reference semantics, except for the node an
+    error about the right operand of and/or/in/notin is attached to (`Out.quirk`) — for trees
+    whose `%` operands stay inside the int64 range -/
+theorem eval_eq_quirk_spec : ∀ (e : Expr), Spec.modInRange G e = true → Impl.eval G e = (Spec.eval G e).quirk
+  | .atom a, _ => by simp [Impl.eval, Spec.eval, Out.quirk]
+  | .list its, h => by
+    simp only [Spec.modInRange] at h
+    simp only [Impl.eval, Spec.eval, evalItems_eq its h]
+    cases Spec.evalItems G its with
+    | ok vs => simp [Out.quirk, Except.mapError]
+    | error x => obtain ⟨k, s, p⟩ := x; simp [Out.quirk, Except.mapError, quirkE]
+  | .bin o t l r, h => by
+    simp only [Spec.modInRange, Bool.and_eq_true] at h
+    obtain ⟨⟨hl', hr'⟩, hm⟩ := h
+    simp only [Impl.eval, Spec.eval, eval_eq_quirk_spec l hl', eval_eq_quirk_spec r hr']
+    cases hl : Spec.eval G l with
+    | err k s p => simp [Out.quirk, binOp_errL]
     | val v1 =>
-      cases Spec.eval G r with
-      | err k s => simp [binOp_errR]
-      | val v2 => simp [binOp_val]
-  | .pre p t x => by
-    simp only [Impl.eval, Spec.eval, eval_refines_spec x]
+      cases hr : Spec.eval G r with
+      | err k s p => simp [Out.quirk, binOp_errR]
+      | val v2 =>
+        simp only [Out.quirk]
+        apply binOp_val
+        intro a b ho h1 h2
+        subst ho h1 h2
+        simpa [hl, hr] using hm
+  | .pre p t x, h => by
+    simp only [Spec.modInRange] at h
+    simp only [Impl.eval, Spec.eval, eval_eq_quirk_spec x h]
     cases Spec.eval G x with
-    | err k s => simp [preOp_err]
-    | val v => simp [preOp_val]
-theorem evalItems_refines_spec : ∀ (its : Items), Impl.evalItems G its = Spec.evalItems G its
-  | .nil => by simp [Impl.evalItems, Spec.evalItems]
-  | .cons e rest => by
-    simp only [Impl.evalItems, Spec.evalItems, eval_refines_spec e, evalItems_refines_spec rest]
+    | err k s q => simp [Out.quirk, preOp_err]
+    | val v => simp [Out.quirk, preOp_val]
+/-- the list literal: as the reference, with the errors of the elements as the code attaches them -/
+theorem evalItems_eq : ∀ (its : Items), Spec.modInRangeItems G its = true →
+    Impl.evalItems G its = (Spec.evalItems G its).mapError quirkE
+  | .nil, _ => by simp [Impl.evalItems, Spec.evalItems, Except.mapError]
+  | .cons e rest, h => by
+    simp only [Spec.modInRangeItems, Bool.and_eq_true] at h
+    simp only [Impl.evalItems, Spec.evalItems, eval_eq_quirk_spec e h.1, evalItems_eq rest h.2]
+    cases Spec.eval G e with
+    | err k s p => simp [Out.quirk, Except.mapError, quirkE]
+    | val v =>
+      cases Spec.evalItems G rest with
+      | ok vs => simp [Out.quirk, Except.mapError]
+      | error x => simp [Out.quirk, Except.mapError]
 end
+
+theorem core_quirk (o : Out N) : o.quirk.core = o.core := by
+  cases o <;> rfl
+
+/- Full statement (FALSE for the code as it is — two known findings):
+     `hasAssign e = false → Impl.eval G e = Spec.eval G e`.
+   It fails (1) where `Out.quirk` is not the identity: `true and 5`, `1 in 5` attach the error
+   naming operand 1 to child 0 (`error-node-left-operand`, pinned by TestOperatorRuntimeErrors);
+   (2) where `%` gets an operand outside the int64 range: `1e+308 % 3`, `(1/0) % 2`
+   (`mod-out-of-int64-range`: the result is the platform's float→int64 conversion's).
+   Proved: for trees whose `%` operands stay in range, equality of value / error kind / named
+   operand (`eval_refines_spec_partial`) and the exact equation with deviation (1) spelled out
+   (`eval_eq_quirk_spec`). -/
+/-- C03 (semantics): for every tree without assignment whose `%` operands stay inside the int64
+    range, every environment, numeric carrier and regular-expression oracle, evaluation as the
+    interpreter does it (helper functions, evaluation order, comparison falling back to text on
+    ANY error of the numeric attempt, both operands of and/or evaluated) yields the value, or the
+    error kind and the named operand, of the per-operator reference semantics. (The reference was
+    written from the language reference AND the code; arithmetic is the abstract carrier's.) -/
+theorem eval_refines_spec_partial (e : Expr) (_h : hasAssign e = false) (hm : Spec.modInRange G e = true) :
+    (Impl.eval G e).core = (Spec.eval G e).core := by
+  rw [eval_eq_quirk_spec G e hm, core_quirk]
+
+/-- … and values are exactly the reference's values -/
+theorem eval_value_iff (e : Expr) (_h : hasAssign e = false) (hm : Spec.modInRange G e = true) (v : Val N) :
+    Impl.eval G e = .val v ↔ Spec.eval G e = .val v := by
+  rw [eval_eq_quirk_spec G e hm]
+  constructor
+  · exact quirk_val _ v
+  · intro h; rw [h]; rfl
 
 def BinOp.arith : BinOp → Bool
   | .plus | .minus | .times | .div | .divint | .modint => true
@@ -285,6 +368,10 @@ def BinOp.arith : BinOp → Bool
 
 def BinOp.logic : BinOp → Bool
   | .and | .or => true
+  | _ => false
+
+def BinOp.member : BinOp → Bool
+  | .isin | .notin => true
   | _ => false
 
 def Val.isNum : Val N → Bool
@@ -295,47 +382,61 @@ def Val.isBool : Val N → Bool
   | .bool _ => true
   | _ => false
 
+def Val.isList : Val N → Bool
+  | .list _ => true
+  | _ => false
+
 def Out.isVal : Out N → Bool
   | .val _ => true
-  | .err _ _ => false
+  | .err _ _ _ => false
 
 /-- C03 (operand kinds, left): an arithmetic operator whose LEFT operand evaluates to
-    something that is not a number yields the error `NotANumber` naming that operand
-    (whenever the right operand evaluates at all). -/
+    something that is not a number yields the error `NotANumber` naming that operand and
+    attached to it (whenever the right operand evaluates at all). -/
 theorem wrong_kind_left_arith (o : BinOp) (t : Str) (l r : Expr) (v1 v2 : Val N) (ho : BinOp.arith o = true)
     (h1 : Impl.eval G l = .val v1) (h2 : Impl.eval G r = .val v2) (hk : Val.isNum v1 = false) :
-    Impl.eval G (.bin o t l r) = .err .notANumber (opName l) := by
+    Impl.eval G (.bin o t l r) = .err .notANumber (opName l) (some 0) := by
   simp only [Impl.eval, h1, h2]
   cases o <;> simp [BinOp.arith] at ho <;> cases v1 <;> simp [Val.isNum] at hk <;>
     simp [Impl.binOp, Impl.numOp]
 
 /-- C03 (operand kinds, right): … and with a number on the left and a non-number on the
-    right it names the right operand. -/
+    right it names the right operand and is attached to it. -/
 theorem wrong_kind_right_arith (o : BinOp) (t : Str) (l r : Expr) (a : N) (v2 : Val N) (ho : BinOp.arith o = true)
     (h1 : Impl.eval G l = .val (.num a)) (h2 : Impl.eval G r = .val v2) (hk : Val.isNum v2 = false) :
-    Impl.eval G (.bin o t l r) = .err .notANumber (opName r) := by
+    Impl.eval G (.bin o t l r) = .err .notANumber (opName r) (some 1) := by
   simp only [Impl.eval, h1, h2]
   cases o <;> simp [BinOp.arith] at ho <;> cases v2 <;> simp [Val.isNum] at hk <;>
     simp [Impl.binOp, Impl.numOp]
 
-/-- C03 (operand kinds, and/or): `and`/`or` on a non-boolean yield `NotABoolean` naming the
+/-- C03 (operand kinds, and/or): `and`/`or` on a non-boolean yield `NotABoolean` NAMING the
     first offending operand — also when the other operand alone would decide the result
-    (`false and 5`, `true or 5`). -/
+    (`false and 5`, `true or 5`). The error is attached to child 0 in both cases: for the right
+    operand that is the known deviation `error-node-left-operand`. -/
 theorem wrong_kind_logic (o : BinOp) (t : Str) (l r : Expr) (v1 v2 : Val N) (ho : BinOp.logic o = true)
     (h1 : Impl.eval G l = .val v1) (h2 : Impl.eval G r = .val v2)
     (hk : Val.isBool v1 = false ∨ Val.isBool v2 = false) :
     Impl.eval G (.bin o t l r) =
-      .err .notABoolean (if Val.isBool v1 = false then opName l else opName r) := by
+      .err .notABoolean (if Val.isBool v1 = false then opName l else opName r) (some 0) := by
   simp only [Impl.eval, h1, h2]
   cases o <;> simp [BinOp.logic] at ho <;> cases v1 <;> cases v2 <;> simp [Val.isBool] at hk <;>
     simp [Impl.binOp, Impl.boolOp, Val.isBool]
 
+/-- C03 (operand kinds, in/notin): a right operand that is not a list yields `NotAList`
+    NAMING it (attached to child 0: known deviation `error-node-left-operand`). -/
+theorem wrong_kind_member (o : BinOp) (t : Str) (l r : Expr) (v1 v2 : Val N) (ho : BinOp.member o = true)
+    (h1 : Impl.eval G l = .val v1) (h2 : Impl.eval G r = .val v2) (hk : Val.isList v2 = false) :
+    Impl.eval G (.bin o t l r) = .err .notAList (opName r) (some 0) := by
+  simp only [Impl.eval, h1, h2]
+  cases o <;> simp [BinOp.member] at ho <;> cases v2 <;> simp [Val.isList] at hk <;>
+    simp [Impl.binOp, Impl.listOp]
+
 /-- C03 (operand kinds, prefix): `-x`, `+x` on a non-number and `not x` on a non-boolean
-    are errors naming `x`. -/
+    are errors naming `x`, attached to `x`. -/
 theorem wrong_kind_prefix (p : PreOp) (t : Str) (x : Expr) (v : Val N) (h : Impl.eval G x = .val v)
     (hk : (if p = .not then Val.isBool v else Val.isNum v) = false) :
     Impl.eval G (.pre p t x) =
-      .err (if p = .not then .notABoolean else .notANumber) (opName x) := by
+      .err (if p = .not then .notABoolean else .notANumber) (opName x) (some 0) := by
   simp only [Impl.eval, h]
   cases p <;> cases v <;> simp [Val.isBool, Val.isNum] at hk <;>
     simp [Impl.preOp, Impl.numVal, Impl.boolVal]
@@ -350,18 +451,192 @@ theorem wrong_kind_is_error (o : BinOp) (t : Str) (l r : Expr) (ho : BinOp.arith
   rcases hk with ⟨v, hv, hk⟩ | ⟨v, hv, hk⟩
   · rw [hv]
     cases hr : Impl.eval G r with
-    | err k s => simp [binOp_errR, Out.isVal]
+    | err k s p => simp [binOp_errR, Out.isVal]
     | val v2 =>
       cases o <;> simp [BinOp.arith, BinOp.logic] at ho <;> cases v <;> simp [BinOp.arith, Val.isNum, Val.isBool] at hk <;>
         cases v2 <;> simp [Impl.binOp, Impl.numOp, Impl.boolOp, Out.isVal]
   · rw [hv]
     cases hl : Impl.eval G l with
-    | err k s => simp [binOp_errL, Out.isVal]
+    | err k s p => simp [binOp_errL, Out.isVal]
     | val v1 =>
       cases o <;> simp [BinOp.arith, BinOp.logic] at ho <;> cases v <;> simp [BinOp.arith, Val.isNum, Val.isBool] at hk <;>
         cases v1 <;> simp [Impl.binOp, Impl.numOp, Impl.boolOp, Out.isVal]
 
 end Sem
+
+/-! ## End to end -/
+
+/-- C03 (source to value): every admissible writing of a tree `e` (no assignment, `%` operands in
+    range), on whatever lines, is parsed with the real table and evaluated the interpreter's way
+    to the value — or the error kind and named operand — the reference semantics gives `e`. -/
+theorem parse_then_eval {N : Type} (G : Cfg N) (e : Expr) (ks : List TK) (hp : Prints e .top .none ks)
+    (ts : List LTok) (eofLine : Nat) (h : ts.map (·.tk) = ks)
+    (ha : hasAssign e = false) (hm : Spec.modInRange G e = true) :
+    ∃ e', Impl.parse T (program ts eofLine) = .ok e' ∧ (Impl.eval G e').core = (Spec.eval G e).core :=
+  ⟨e, pratt_print_redundant e ks hp ts eofLine h, eval_refines_spec_partial G e ha hm⟩
+
+/-! ## Semantic content: an EXACT carrier (rationals) and sanity lemmas
+
+With the abstract carrier the theorems above say nothing about what `//` and `%` compute.
+Here the carrier is exact rational arithmetic: `//` is the floor of the exact quotient and `%`
+the remainder of the truncated operands, for ALL operands. (IEEE rounding, NaN, infinities
+are the differential run's business.) -/
+
+def truncQ (x : Rat) : Int := if 0 ≤ x then x.floor else -((-x).floor)
+
+def ratNum : Num Rat where
+  ofBits := fun b => (b : Rat)
+  add := (· + ·)
+  sub := (· - ·)
+  mul := (· * ·)
+  div := (· / ·)
+  neg := fun a => -a
+  floor := fun a => (a.floor : Rat)
+  lt := fun a b => decide (a < b)
+  le := fun a b => decide (a ≤ b)
+  eq := fun a b => decide (a = b)
+  toInt := truncQ
+  ofInt := fun i => (i : Rat)
+  text := fun _ => []
+  inInt64 := fun _ => true
+  wideMod := fun a b => if truncQ b = 0 then none else some ((Int.tmod (truncQ a) (truncQ b) : Int) : Rat)
+
+/-- variables `x`, `y` hold the two operands -/
+def ratCfg (a b : Rat) : Cfg Rat where
+  C := ratNum
+  re := fun _ _ => none
+  var := fun n => if n = [120] then .num a else if n = [121] then .num b else .null
+
+def vx : Expr := .atom (.ident [120])
+def vy : Expr := .atom (.ident [121])
+
+/-- `x // y` evaluates to the FLOOR of the exact quotient: the integer `q` with `q ≤ a/b < q+1`
+    — for all rationals (`-7 // 2 = -4`, not `-3`). -/
+theorem floordiv_is_floor (a b : Rat) :
+    ∃ q : Int, Impl.eval (ratCfg a b) (.bin .divint [47, 47] vx vy) = .val (.num (q : Rat)) ∧
+      (q : Rat) ≤ a / b ∧ a / b < ((q + 1 : Int) : Rat) :=
+  ⟨(a / b).floor, by simp [Impl.eval, Impl.binOp, Impl.numOp, Impl.atomVal, ratCfg, ratNum, vx, vy],
+    Rat.floor_le _, Rat.lt_floor_add_one _⟩
+
+/-- `x % y` on integers is the TRUNCATED remainder `r`: `a = (a quot b)·b + r`, `|r| < |b|`, and `r`
+    has the sign of the dividend (`-7 % 2 = -1`, `7 % -2 = 1`); a zero divisor is an error. -/
+theorem mod_is_truncated_remainder (a b : Int) (hb : b ≠ 0) :
+    ∃ r : Int, Impl.eval (ratCfg a b) (.bin .modint [37] vx vy) = .val (.num (r : Rat)) ∧
+      a = Int.tdiv a b * b + r ∧ r.natAbs < b.natAbs ∧ (0 ≤ a → 0 ≤ r) ∧ (a ≤ 0 → r ≤ 0) := by
+  have hta : truncQ (a : Rat) = a := by
+    unfold truncQ; split
+    · exact Rat.floor_intCast a
+    · have : (-(a : Rat)) = ((-a : Int) : Rat) := by simp
+      rw [this, Rat.floor_intCast]; omega
+  have htb : truncQ (b : Rat) = b := by
+    unfold truncQ; split
+    · exact Rat.floor_intCast b
+    · have : (-(b : Rat)) = ((-b : Int) : Rat) := by simp
+      rw [this, Rat.floor_intCast]; omega
+  refine ⟨Int.tmod a b, ?_, ?_, ?_, ?_, ?_⟩
+  · simp [Impl.eval, Impl.binOp, Impl.numOp, Impl.modOp, Impl.atomVal, ratCfg, ratNum, vx, vy, hta, htb, hb]
+  · have := Int.mul_tdiv_add_tmod a b; rw [Int.mul_comm] at this; omega
+  · rw [Int.natAbs_tmod]
+    exact Nat.mod_lt _ (by omega)
+  · intro h; exact Int.tmod_nonneg b h
+  · intro h
+    have := Int.tmod_nonneg (a := -a) b (by omega)
+    rw [Int.neg_tmod] at this; omega
+
+theorem mod_by_zero_is_error (a : Int) :
+    Impl.eval (ratCfg a 0) (.bin .modint [37] vx vy) = .err .runtime [] none := by
+  have : truncQ (0 : Rat) = 0 := by decide
+  simp [Impl.eval, Impl.binOp, Impl.numOp, Impl.modOp, Impl.atomVal, ratCfg, ratNum, vx, vy, this]
+
+section Sanity
+variable {N : Type} (G : Cfg N)
+
+/-- `!=` is the negation of `==` -/
+theorem neq_is_not_eq (n1 n2 : Str) (v1 v2 : Val N) :
+    Impl.binOp G .neq n1 n2 (.val v1) (.val v2) = .val (.bool (!Val.eqv G.C v1 v2)) ∧
+    Impl.binOp G .eq n1 n2 (.val v1) (.val v2) = .val (.bool (Val.eqv G.C v1 v2)) := by
+  simp [Impl.binOp, Impl.genOp]
+
+/-- on two strings `>=` is the negation of `<`, `<=` of `>`, and `>` is `<` with the operands swapped -/
+theorem string_comparisons (n1 n2 : Str) (a b : Str) :
+    Impl.binOp G .lt n1 n2 (.val (.str a)) (.val (.str b)) = .val (.bool (strLt a b)) ∧
+    Impl.binOp G .geq n1 n2 (.val (.str a)) (.val (.str b)) = .val (.bool (!strLt a b)) ∧
+    Impl.binOp G .gt n1 n2 (.val (.str a)) (.val (.str b)) = .val (.bool (strLt b a)) ∧
+    Impl.binOp G .leq n1 n2 (.val (.str a)) (.val (.str b)) = .val (.bool (!strLt b a)) := by
+  simp [Impl.binOp, Impl.cmpOp, Impl.numOp, Impl.strOp, Val.text]
+
+/-- `notin` is the negation of `in` -/
+theorem notin_is_not_in (n1 n2 : Str) (v : Val N) (vs : Vals N) :
+    Impl.binOp G .notin n1 n2 (.val v) (.val (.list vs)) = .val (.bool (!Vals.has G.C v vs)) ∧
+    Impl.binOp G .isin n1 n2 (.val v) (.val (.list vs)) = .val (.bool (Vals.has G.C v vs)) := by
+  simp [Impl.binOp, Impl.listOp]
+
+end Sanity
+
+/-- the lexical order on byte strings is a strict total order -/
+theorem strLt_irrefl : ∀ a : Str, strLt a a = false
+  | [] => rfl
+  | x :: xs => by simp [strLt, strLt_irrefl xs]
+
+theorem strLt_trichotomy : ∀ a b : Str, strLt a b = true ∨ a = b ∨ strLt b a = true
+  | [], [] => by simp
+  | [], _ :: _ => by simp [strLt]
+  | _ :: _, [] => by simp [strLt]
+  | x :: xs, y :: ys => by
+    rcases Nat.lt_trichotomy x y with h | h | h
+    · left; simp [strLt, h]
+    · subst h
+      rcases strLt_trichotomy xs ys with h' | h' | h'
+      · left; simp [strLt, h']
+      · right; left; rw [h']
+      · right; right; simp [strLt, h']
+    · right; right; simp [strLt, h]
+
+theorem strLt_asymm : ∀ a b : Str, strLt a b = true → strLt b a = false
+  | [], [], h => by simp [strLt] at h
+  | [], _ :: _, _ => by simp [strLt]
+  | _ :: _, [], h => by simp [strLt] at h
+  | x :: xs, y :: ys, h => by
+    simp only [strLt] at h ⊢
+    split at h
+    · rename_i hxy
+      have : ¬ y < x := by omega
+      simp [this]; omega
+    · split at h
+      · simp at h
+      · rename_i h1 h2
+        have : x = y := by omega
+        subst this
+        simp [strLt_asymm xs ys h]
+
+theorem strLt_trans : ∀ a b c : Str, strLt a b = true → strLt b c = true → strLt a c = true
+  | [], [], _, h, _ => by simp [strLt] at h
+  | [], _ :: _, [], _, h => by simp [strLt] at h
+  | [], _ :: _, _ :: _, _, _ => by simp [strLt]
+  | _ :: _, [], _, h, _ => by simp [strLt] at h
+  | _ :: _, _ :: _, [], _, h => by simp [strLt] at h
+  | x :: xs, y :: ys, z :: zs, h1, h2 => by
+    simp only [strLt] at h1 h2 ⊢
+    split at h1
+    · split at h2
+      · have : x < z := by omega
+        simp [this]
+      · split at h2
+        · simp at h2
+        · have : x < z := by omega
+          simp [this]
+    · split at h1
+      · simp at h1
+      · have hxy : x = y := by omega
+        subst hxy
+        split at h2
+        · rename_i h; simp [h]
+        · split at h2
+          · simp at h2
+          · rename_i h3 h4 h5 h6
+            have : x = z := by omega
+            subst this
+            simp [strLt_trans xs ys zs h1 h2]
 
 /-! ### non-vacuity of the semantic theorems: a toy carrier (integers) -/
 
@@ -379,6 +654,8 @@ def toyNum : Num Int where
   toInt := id
   ofInt := id
   text := fun a => if a = 10 then [49, 48] else [57]   -- "10" / "9"
+  inInt64 := fun _ => true
+  wideMod := fun a b => if b = 0 then none else some (Int.tmod a b)
 
 def toy : Cfg Int where
   C := toyNum
@@ -386,7 +663,7 @@ def toy : Cfg Int where
   var := fun _ => .null
 
 def isErr {N : Type} (k : ErrKind) (name : Str) : Out N → Bool
-  | .err k' n => k = k' ∧ n = name
+  | .err k' n _ => k = k' ∧ n = name
   | .val _ => false
 
 def isBoolVal {N : Type} (b : Bool) : Out N → Bool
